@@ -174,7 +174,7 @@ Definition read_fnset (le : bool) : parser fnset :=
   base <~ read_u32 le ;;
   nb <~ read_u32 le ;;
   ws <~ read_bitmap le nb ;;
-  _ <~ ptick (FNSET_CAP + Z.min nb 257) ;;
+  _ <~ ptick (FNSET_CAP + Z.max 0 (Z.min nb 257)) ;;
   set <~ plift (fn_collect base ws (Z.to_nat (Z.min nb 257)) 0) ;;
   plift (fnset_new base set).
 
@@ -224,7 +224,7 @@ Definition read_param (le : bool) : parser param := fun s =>
   if negb (pid =? PID_SENTINEL) && negb (length mod 4 =? 0) then (Err E_INVALID, 4) else
   if pid =? PID_SENTINEL then (Ok (mk_param pid [], s'), 4) else
   if shorter s' length then (Err E_NOTENOUGH, 4) else
-  (Ok (mk_param pid (firstn (Z.to_nat length) s'), skipn (Z.to_nat length) s'), 4 + ARC_HDR + length).
+  (Ok (mk_param pid (firstn (Z.to_nat length) s'), skipn (Z.to_nat length) s'), 4 + ARC_HDR + Z.max 0 length).
 
 (* ParameterList::try_read_from_bytes, MAX_PARAMETERS = 2^16 iterations *)
 Fixpoint read_params (le : bool) (fuel : nat) : parser (list param) :=
